@@ -22,11 +22,11 @@ func init() {
 				steps = "4 Reads / 5 Writes"
 			}
 			return map[string]string{
-				"limit, counters":  "none: all 64-bit values (symbolic)",
-				"history":          steps + " per history, each buffer 0..3 bytes, stream of 6 symbolic bytes",
-				"inductive step":   "one call from any state with n<=limit (offset<=limit); buffers 0..3 bytes; covers histories of any length given the invariant",
-				"wrapped reader":   "any count 0..min(len(p),available), error in {nil, io.EOF, injected}; (0,nil) and data+EOF included; negative counts in a separate harness",
-				"wrapped writer":   "any short count, error or nil",
+				"limit, counters": "none: all 64-bit values (symbolic)",
+				"history":         steps + " per history, each buffer 0..3 bytes, stream of 6 symbolic bytes",
+				"inductive step":  "one call from any state with n<=limit (offset<=limit); buffers 0..3 bytes; covers histories of any length given the invariant",
+				"wrapped reader":  "any count 0..min(len(p),available), error in {nil, io.EOF, injected}; (0,nil) and data+EOF included; negative counts in a separate harness",
+				"wrapped writer":  "any short count, error or nil",
 			}
 		},
 		Outside:     []string{"buffers longer than 3 bytes", "histories longer than the stated number of calls in the history variant (the inductive variant has no history bound)", "wrapped readers returning n > len(p)", "text of error messages (fmt stubbed)"},
